@@ -153,7 +153,7 @@ type C12Case struct {
 // C12AdaptAPI makes a generated case one the HTTP front end can produce: it always sees a client
 // address and registers with source API / BidirectionalAPI.
 func C12AdaptAPI(rt *rapid.T, c *C12Case) {
-	if c.Req.ClientAddr == nil {
+	if len(c.Req.ClientAddr) == 0 {
 		c.Req.ClientAddr = vh.Hex(net.ParseIP("198.51.100.77").To16())
 	}
 	c.Req.Method = int32(pb.RegistrationSource_API)
@@ -807,7 +807,7 @@ func C12BuildParams(p C12Params) *anypb.Any {
 		m = &pb.DTLSTransportParams{RandomizeDstPort: p.Randomize}
 	case "prefix":
 		x := &pb.PrefixTransportParams{PrefixId: p.PrefixID, RandomizeDstPort: p.Randomize, CustomFlushPolicy: p.Flush}
-		if p.Prefix != nil {
+		if len(p.Prefix) > 0 {
 			x.Prefix = []byte(p.Prefix)
 		}
 		m = x
@@ -829,7 +829,7 @@ func C12ForgedResponse(f C12Forged) *pb.RegistrationResponse {
 		return nil
 	}
 	rr := &pb.RegistrationResponse{Ipv4Addr: f.V4, DstPort: f.Port}
-	if f.V6 != nil {
+	if len(f.V6) > 0 {
 		rr.Ipv6Addr = []byte(f.V6)
 	}
 	if f.Params != nil {
@@ -848,10 +848,10 @@ func C12ForgedSig(f C12Forged) (rb, sig []byte) {
 		rb, _ = proto.Marshal(rr)
 		return rb, ed25519.Sign(c12AttackerKey, rb)
 	}
-	if f.RespBytes != nil {
+	if len(f.RespBytes) > 0 {
 		rb = []byte(f.RespBytes)
 	}
-	if f.Sig != nil {
+	if len(f.Sig) > 0 {
 		sig = []byte(f.Sig)
 	}
 	return rb, sig
@@ -887,7 +887,7 @@ func C12ClientBytes(q C12Request) ([]byte, error) {
 		s := pb.RegistrationSource(*q.Source)
 		w.RegistrationSource = &s
 	}
-	if q.RegAddr != nil {
+	if len(q.RegAddr) > 0 {
 		w.RegistrationAddress = []byte(q.RegAddr)
 	}
 	w.RegRespBytes, w.RegRespSignature = C12ForgedSig(q.Forged)
@@ -911,7 +911,7 @@ func C12DirectEntry(pr *C12Proc, clientBytes []byte, c C12Case) ([]byte, bool, s
 		return nil, false, "undecodable"
 	}
 	var addr []byte
-	if c.Req.ClientAddr != nil {
+	if len(c.Req.ClientAddr) > 0 {
 		addr = []byte(c.Req.ClientAddr)
 	}
 	if !c.Bidir {
@@ -1222,7 +1222,7 @@ func C12Run(e *C12Env, c C12Case, entry C12Entry) (res C12Result) {
 		if q.Forged.V4 != nil && v.rr.Ipv4Addr != nil && *v.rr.Ipv4Addr == *q.Forged.V4 {
 			res.bad("forged:v4", "%s were told the client's forged IPv4 phantom %v", v.who, c12V4(*q.Forged.V4))
 		}
-		if q.Forged.V6 != nil && bytes.Equal(v.rr.GetIpv6Addr(), q.Forged.V6) {
+		if len(q.Forged.V6) > 0 && bytes.Equal(v.rr.GetIpv6Addr(), q.Forged.V6) {
 			res.bad("forged:v6", "%s were told the client's forged IPv6 phantom %v", v.who, net.IP(q.Forged.V6))
 		}
 		if q.Forged.Port != nil && v.rr.DstPort != nil && *v.rr.DstPort == *q.Forged.Port {
